@@ -3,7 +3,10 @@ Model of session resumption in gmtls as the code decides it: the server's gate (
 in gm_handshake_server_double.go and handshake_server.go, on top of `decryptTicket` in ticket.go), ticket
 issue and refresh (`sendSessionTicket`, `usedOldKey`), the client's offer (`clientHandshake`:
 cache lookup, suite / version filter) and the LRU client cache (common.go `lruSessionCache`), run over a
-history of connections, ticket-key rotations and configuration changes.
+history of connections, ticket-key rotations and configuration changes - including the switch
+`SessionTicketsDisabled` in both directions and `Config`s whose ticket key the library creates itself
+(`serverInit` / `ensureTicketKeys`; the key list may be empty, and `encryptTicket` without a key is the
+crash `panics`).
 Tickets are abstract: sealed under a key name, carrying the server's session state, and a flag saying
 whether the bytes are still those the server issued (the MAC check of `decryptTicket`).
 Core Lean only; executable.
@@ -142,6 +145,23 @@ structure ConnReq where
 
 def setSrv (f : Nat → Server) (i : Nat) (s : Server) : Nat → Server := fun j => if j = i then s else f j
 
+/-- name of the key `serverInit` derives from a fresh random `SessionTicketKey` when connection `n` begins:
+    unlike every name set with `SetSessionTicketKeys` (the op lines use ids below 10^9) and unlike every
+    earlier automatic one -/
+def autoKey (n : Nat) : Nat := 1000000000 + n
+
+/-- `Config.ensureTicketKeys` (the repair; `serverInit` on demand): tickets enabled and no ticket key yet -
+    a `Config` that has not been used, or one that served all its connections so far with
+    `SessionTicketsDisabled` - creates the key `k`; otherwise nothing changes.  (Before the repair this ran
+    under `serverInitOnce` only, so a `Config` first used with tickets disabled never got a key.) -/
+def ensureKeys (s : Server) (k : Nat) : Server :=
+  if !s.disabled && s.keys.isEmpty then { s with keys := [k] } else s
+
+/-- what the entry points `serverHandshake` / `serverHandshakeGM` / `serverHandshakeAutoSwitch` do before
+    anything else: `c.config.ensureTicketKeys(nil)` on the server the client connects to -/
+def prep (w : World) (r : ConnReq) : World :=
+  { w with srv := setSrv w.srv r.srv (ensureKeys (w.srv r.srv) (autoKey (w.n + 1))) }
+
 /-- the cached session the client offers: found under the server's name and still using a suite it lists
     (its version is always within the configured range here) -/
 def offered (m : Mode) (w : World) (r : ConnReq) : Option CSess :=
@@ -179,7 +199,8 @@ def store (w : World) (r : ConnReq) (c : Cache) (st : Sess) (issue : Bool) : Cac
   | true, some k => c.put w.cap r.srv ⟨⟨k, st, true⟩, st⟩
   | _, _ => c
 
-/-- one connection: returns the new world and what both ends report -/
+/-- one connection (the handshake after the entry point has run `prep`): returns the new world and what both
+    ends report -/
 def conn (m : Mode) (w : World) (r : ConnReq) : World × Outcome :=
   let c1 := cacheAfterGet w r
   match resumeDecision m w r with
@@ -192,6 +213,28 @@ def conn (m : Mode) (w : World) (r : ConnReq) : World × Outcome :=
       ({ w with cache := store w r c1 st (!w.clientOff && !(w.srv r.srv).disabled), n := w.n + 1,
                 issued := st :: w.issued }, .full (w.n + 1))
 
+/-- `encryptTicket` seals under `c.config.ticketKeys()[0]`: with an empty key list the index expression
+    panics (`none` here) -/
+def encryptTicket (s : Server) (st : Sess) : Option Ticket := s.keys.head?.map fun k => ⟨k, st, true⟩
+
+/-- does the handshake `conn` reach `sendSessionTicket` with `ticketSupported` set, i.e. `encryptTicket`:
+    a full handshake with a client that asked for a ticket while the server's tickets are enabled, or a
+    resumption from a ticket under an old key -/
+def issues (m : Mode) (w : World) (r : ConnReq) : Bool :=
+  match resumeDecision m w r with
+  | some (_, old) => old
+  | none =>
+    match fullOutcome m w r with
+    | none => false
+    | some _ => !w.clientOff && !(w.srv r.srv).disabled
+
+/-- the handshake `conn` crashes the server: `encryptTicket` is reached and there is no key -/
+def panics (m : Mode) (w : World) (r : ConnReq) : Bool :=
+  issues m w r && (w.srv r.srv).keys.isEmpty
+
+/-- one connection as the server's entry point runs it: ticket keys are ensured, then the handshake -/
+def serve (m : Mode) (w : World) (r : ConnReq) : World × Outcome := conn m (prep w r) r
+
 inductive Step
   | conn (r : ConnReq)
   | keys (srv : Nat) (ks : List Nat)
@@ -200,15 +243,17 @@ inductive Step
   | disable (srv : Nat) (b : Bool)
   | maxv (srv : Nat) (v : Nat)
   | clientOff (b : Bool)
+  | fresh (srv : Nat)    -- the server goes on with a new `Config` (same settings) that has no ticket key yet
 
 def step (m : Mode) (w : World) : Step → World × Option Outcome
-  | .conn r => let (w', o) := conn m w r; (w', some o)
+  | .conn r => let (w', o) := serve m w r; (w', some o)
   | .keys i ks => ({ w with srv := setSrv w.srv i { w.srv i with keys := ks } }, none)
   | .suites i l => ({ w with srv := setSrv w.srv i { w.srv i with suites := l } }, none)
   | .auth i a => ({ w with srv := setSrv w.srv i { w.srv i with auth := a } }, none)
   | .disable i b => ({ w with srv := setSrv w.srv i { w.srv i with disabled := b } }, none)
   | .maxv i v => ({ w with srv := setSrv w.srv i { w.srv i with maxVers := v } }, none)
   | .clientOff b => ({ w with clientOff := b }, none)
+  | .fresh i => ({ w with srv := setSrv w.srv i { w.srv i with keys := [] } }, none)
 
 def run (m : Mode) : World → List Step → List Outcome
   | _, [] => []
